@@ -352,13 +352,13 @@ Section BT.
   Theorem fail_pos_through_call : forall fuel pack fa xa xr ci ops s chain msg pos s' g,
     gcall fuel pack fa xa xr ci ops s chain = (CErr (RFail msg pos s'), g) ->
     (g_chain g = chain /\ g_at g = Some ci /\ pos = ipos ci) \/       (* raised at the call instruction itself *)
-    (exists f' body slots0 s1,                                          (* or inside the body, handed up as it is *)
-        fuel = S f' /\ bt s1 = bt s /\
+    (exists f' nargs nrets variadic vtype nslots types body slots0 s1,  (* or inside the body, handed up as it is *)
+        fuel = S f' /\ hget s fa = Some (HFunc nargs nrets variadic vtype nslots types body) /\ bt s1 = bt s /\
         gexec f' body 0 slots0 [] (push_bt s1 (ipos ci)) (ci :: chain) = (RFail msg pos s', g)).
   Proof.
     intros fuel pack fa xa xr ci ops s chain msg pos s' g.
     destruct fuel as [|f]; [discriminate|]. simpl.
-    destruct (hget s fa) as [[nargs nrets variadic vtype nslots types body|name| | | | |]|];
+    destruct (hget s fa) as [[nargs nrets variadic vtype nslots types body|name| | | | |]|] eqn:Eh;
       try solve [intro E; inversion E; subst; left; auto].
     - assert (Hbody : forall ops1 xa1 s1, bt s1 = bt s ->
         (if negb (xa1 =? nargs) then (CErr (RFail "incorrect args" (ipos ci) s1), raised chain ci) else
@@ -382,7 +382,9 @@ Section BT.
              end
          end) = (CErr (RFail msg pos s'), g) ->
         g_chain g = chain /\ g_at g = Some ci /\ pos = ipos ci \/
-        (exists f' body slots0 s1, S f = S f' /\ bt s1 = bt s /\ gexec f' body 0 slots0 [] (push_bt s1 (ipos ci)) (ci :: chain) = (RFail msg pos s', g))).
+        (exists f' nargs' nrets' variadic' vtype' nslots' types' body' slots0 s1, S f = S f' /\
+           Some (HFunc nargs nrets variadic vtype nslots types body) = Some (HFunc nargs' nrets' variadic' vtype' nslots' types' body') /\ bt s1 = bt s /\
+           gexec f' body' 0 slots0 [] (push_bt s1 (ipos ci)) (ci :: chain) = (RFail msg pos s', g))).
       { intros ops1 xa1 s1 Hs1.
         destruct (negb (xa1 =? nargs)); [intro E; inversion E; subst; left; auto|].
         destruct (popn (Z.to_nat nargs) ops1 []) as [[args rest]|]; [|discriminate].
@@ -391,7 +393,7 @@ Section BT.
         destruct r as [sl' rops s2|msg' p' s2|w| |w]; try discriminate.
         * repeat match goal with |- context [if ?c then _ else _] => destruct c end;
             intro E; inversion E; subst; left; auto.
-        * intro E; inversion E; subst. right. do 4 eexists. split; [reflexivity|]. split; [exact Hs1 | exact Eb]. }
+        * intro E; inversion E; subst. right. do 10 eexists. split; [reflexivity|]. split; [reflexivity|]. split; [exact Hs1 | exact Eb]. }
       destruct (variadic && pack); [|apply Hbody; reflexivity].
       destruct (xa - nargs + 1 <? 0); [intro E; inversion E; subst; left; auto|].
       destruct (popn (Z.to_nat (xa - nargs + 1)) ops []) as [[vargs rest]|]; [|discriminate].
